@@ -69,6 +69,15 @@ func clockSort() Sort {
 	return IntSort
 }
 
+func (p *po) threadIndex(tid int) int {
+	for i, t := range p.b.threads {
+		if t.Tid == tid {
+			return i
+		}
+	}
+	return 0
+}
+
 func (p *po) clockConst(v int64) *Term {
 	if clockSort().K == SInt {
 		return p.tb.IntConst64(v)
@@ -195,10 +204,14 @@ func (b *bmc) buildPO() *po {
 	}
 	for _, ed := range b.edges {
 		p.x[ed] = tb.Sym(fmt.Sprintf("x!%d", ed.ID), BoolSort)
-		p.c[ed] = tb.Sym(fmt.Sprintf("c!%d", ed.ID), clockSort())
 		if clockSort().K == SInt {
-			p.add(tb.Cmp("<=", IntTy{}, tb.IntConst64(0), p.c[ed]))
+			// clock = T*k + index(thread): blocks of different threads can never share a clock value,
+			// which replaces a quadratic number of pairwise disequalities
+			k := tb.Sym(fmt.Sprintf("k!%d", ed.ID), IntSort)
+			p.add(tb.Cmp("<=", IntTy{}, tb.IntConst64(0), k))
+			p.c[ed] = tb.mk("+", IntSort, tb.mk("*", IntSort, tb.IntConst64(int64(len(b.threads))), k), tb.IntConst64(int64(p.threadIndex(ed.Tid))))
 		} else {
+			p.c[ed] = tb.Sym(fmt.Sprintf("c!%d", ed.ID), clockSort())
 			p.add(tb.Not(tb.Eq(p.c[ed], p.clockConst(-1))))
 		}
 		if p.outN[ed.Tid] == nil {
@@ -534,7 +547,7 @@ func (b *bmc) buildPO() *po {
 			touch[w.edge][n] = true
 		}
 	}
-	for i := 0; i < len(b.edges); i++ {
+	for i := 0; i < len(b.edges) && clockSort().K != SInt; i++ {
 		for j := i + 1; j < len(b.edges); j++ {
 			e1, e2 := b.edges[i], b.edges[j]
 			if e1.Tid == e2.Tid {
@@ -614,7 +627,11 @@ func (b *bmc) poTraceFrom(fs *Solver) []string {
 		if xv[p.x[ed].Name] != "true" {
 			continue
 		}
-		evs = append(evs, ev{parseSMTInt(cv[p.c[ed].Name]).Int64(), ed})
+		ck := p.c[ed].Name
+		if p.c[ed].Op != "sym" {
+			ck = refName(p.c[ed])
+		}
+		evs = append(evs, ev{parseSMTInt(cv[ck]).Int64(), ed})
 	}
 	sort.Slice(evs, func(i, j int) bool {
 		if evs[i].c != evs[j].c {
